@@ -290,6 +290,10 @@ VSread(int32 vkey,  /* IN: vdata key */
         for (uvsize = 0, j = 0; j < r->n; j++)
             uvsize += w->esize[r->item[j]];
 
+        /* a single-field vdata is delivered whole, with or without a read list */
+        if (w->n == 1)
+            uvsize = (int32)w->esize[0];
+
         while (done < nelt) {
 
             /* chunk has changed so update the byte counts */
